@@ -353,6 +353,9 @@ Definition step_goal (o : oracle) (s : state) (av : list avar) (abl : list Z) (x
     cnt s' av' = cnt s av + Z.of_nat (length (abandoned aevs)) /\
     (abandoned aevs = [] -> abl' = abl).
 
+Lemma in_range_lt {A} (l : list A) i : (i < length l)%nat -> in_range l i = true.
+Proof. intros H. unfold in_range. apply Nat.ltb_lt. exact H. Qed.
+
 Lemma in_range_eq s av abl i : sim s av abl -> in_range (st_vars s) i = in_range av i.
 Proof. intros S. unfold in_range. rewrite (sim_len _ _ _ S). reflexivity. Qed.
 
@@ -363,7 +366,7 @@ Proof.
   destruct (nget av i) eqn:Ea; [discriminate|]. inversion H; subst; clear H.
   pose proof (proj1 (sim_scope _ _ _ S i) Ea) as Ev. apply in_range_true in IR.
   exists (mkSt (nset (st_vars s) i (Some None)) (st_led s) (st_heap s) (st_ser s) (st_blk s)), [], (abl_after (st_vars s) av i abl).
-  split; [unfold step; rewrite (in_range_eq _ _ _ i S); rewrite (proj2 (in_range_true av i) IR); simpl; rewrite Ev; reflexivity|].
+  split; [unfold step; cbv zeta; rewrite (in_range_eq _ _ _ i S); rewrite (in_range_lt av i IR); simpl; rewrite Ev; reflexivity|].
   split; [apply sim_clear; auto; split; discriminate|].
   split; [reflexivity|]. split; [reflexivity|]. split.
   - unfold cnt; simpl. rewrite owned_length_nset by exact IR. rewrite Ea. simpl. lia.
@@ -377,10 +380,10 @@ Proof.
   pose proof (nget_in_range _ _ _ Ea) as IR.
   destruct (nget (st_vars s) i) as [bi|] eqn:Ev; [|apply (sim_scope _ _ _ S) in Ev; congruence].
   exists (mkSt (nset (st_vars s) i None) (st_led s) (st_heap s) (st_ser s) (st_blk s)), [], (abl_after (st_vars s) av i abl).
-  split; [unfold step; rewrite Ev; reflexivity|].
+  split; [unfold step; cbv zeta; rewrite Ev; reflexivity|].
   split; [apply sim_clear; auto; tauto|].
   split; [rewrite abandon_project; reflexivity|]. split; [reflexivity|]. split.
-  - unfold cnt; simpl. rewrite owned_length_nset by exact IR. rewrite Ea, abandon_length. simpl is_owner at 2. lia.
+  - unfold cnt; simpl. rewrite owned_length_nset by exact IR. rewrite Ea, abandon_length. destruct xi; simpl; lia.
   - intros N. apply abl_after_same. rewrite Ea. apply abandon_nil. exact N.
 Qed.
 
@@ -395,7 +398,7 @@ Proof.
   assert (NE : i <> j) by (intros ->; congruence).
   pose proof (nget_in_range _ _ _ Eaj) as JR.
   exists (mkSt (nset (st_vars s) i (Some bj)) (st_led s) (st_heap s) (st_ser s) (st_blk s)), [], (abl_after (st_vars s) av i abl).
-  split; [unfold step; rewrite (in_range_eq _ _ _ i S); rewrite (proj2 (in_range_true av i) IR); simpl; rewrite Ev, Evj; reflexivity|].
+  split; [unfold step; cbv zeta; rewrite (in_range_eq _ _ _ i S); rewrite (in_range_lt av i IR); simpl; rewrite Ev, Evj; reflexivity|].
   split; [apply sim_move; auto|].
   split; [reflexivity|]. split; [reflexivity|]. split.
   - unfold cnt; simpl. rewrite !owned_length_nset by (rewrite ?nset_length; lia).
@@ -414,14 +417,254 @@ Proof.
   destruct (Nat.eqb i j) eqn:Eij; inversion H; subst; clear H.
   - apply Nat.eqb_eq in Eij. subst j. rewrite Ev in Evj. inversion Evj; subst bj.
     exists s, [], abl. split.
-    + unfold step. rewrite Ev. rewrite <- Ev at 2. rewrite nset_id. destruct s; reflexivity.
+    + unfold step; cbv zeta. rewrite Ev. rewrite <- Ev. rewrite nset_id. destruct s; reflexivity.
     + split; [exact S|]. split; [reflexivity|]. split; [reflexivity|]. split; [simpl; lia | reflexivity].
   - apply Nat.eqb_neq in Eij.
     exists (mkSt (nset (st_vars s) i (Some bj)) (st_led s) (st_heap s) (st_ser s) (st_blk s)), [], (abl_after (st_vars s) av i abl).
-    split; [unfold step; rewrite Ev, Evj; reflexivity|].
+    split; [unfold step; cbv zeta; rewrite Ev, Evj; reflexivity|].
     split; [apply sim_move; auto|].
     split; [rewrite abandon_project; reflexivity|]. split; [reflexivity|]. split.
     + unfold cnt; simpl. rewrite !owned_length_nset by (rewrite ?nset_length; lia).
-      rewrite nget_nset_other by exact Eij. rewrite Ea, Eaj, abandon_length. simpl is_owner at 2 4. lia.
+      rewrite nget_nset_other by exact Eij. rewrite Ea, Eaj, abandon_length. destruct xi, xj; simpl; lia.
     + intros N. apply abl_after_same. rewrite Ea. apply abandon_nil. exact N.
+Qed.
+
+Lemma owner_fun vs av i t p t' p' : owner vs av i t p -> owner vs av i t' p' -> t = t' /\ p = p'.
+Proof. intros [A V] [A' V']. split; congruence. Qed.
+
+(* events of a stored callable are aligned *)
+Lemma pay_aligned_inline o i p : oracle_ok o -> pay_ok p -> p_kind p = SInline -> alignedb (vaddr o i) (p_al p) = true.
+Proof.
+  intros [OV _] [P K] E. rewrite E in K. apply alignedb_divide; [exact P|].
+  eapply Z.divide_trans; [exact K | apply OV].
+Qed.
+Lemma pay_aligned_spill p K : pay_ok p -> p_kind p = SSpill K ->
+  alignedb (p_addr p) (p_al p) && alignedb (p_addr p) K = true.
+Proof.
+  intros [P H] E. rewrite E in H. destruct H as [KP [D1 D2]]. apply andb_true_iff. split.
+  - apply alignedb_divide; [exact P | eapply Z.divide_trans; eauto].
+  - apply alignedb_divide; assumption.
+Qed.
+
+(* operator() (run = true) and cleanupNotRun() (run = false) on a variable that owns callable t *)
+Lemma step_invoke o s av abl i t (run : bool) : oracle_ok o -> sim s av abl -> nget av i = Some (Some t) ->
+  step_goal o s av abl (if run then OCall i else OCleanup i) (nset av i (Some None))
+            ((if run then [AInvoke t] else []) ++ [ADestroy t]).
+Proof.
+  intros OK S Ha. destruct (sim_own _ _ _ S i t Ha) as [p [Hv [Ht [AL [PO SH]]]]].
+  pose proof (nget_in_range _ _ _ Ha) as IR.
+  destruct (sim_errs _ _ _ S) as [EL EH]. destruct (sim_linv _ _ _ S) as [LL LH].
+  assert (U : (if run then use (p_ser p) (st_led s) else st_led s) = st_led s)
+    by (destruct run; [apply use_live; rewrite AL|]; reflexivity).
+  destruct (destroy_fact (p_ser p) (st_led s) EL) as [EL' GL']; [rewrite AL; reflexivity|].
+  (* the heap after the call, whatever the storage kind *)
+  assert (HP : exists h, (match p_kind p with SInline => st_heap s | SSpill _ => destroy (p_blk p) (st_heap s) end) = h /\
+           l_errs h = [] /\ linv h /\
+           (forall b, lget h b = if is_spill p && (p_blk p =? b) then Dead else lget (st_heap s) b)).
+  { unfold is_spill in *. destruct (p_kind p) as [|K] eqn:EK.
+    - eexists; split; [reflexivity|]. split; [exact EH|]. split; [exact LH | reflexivity].
+    - destruct (destroy_fact (p_blk p) (st_heap s) EH) as [EH' GH']; [rewrite SH; reflexivity|].
+      eexists; split; [reflexivity|]. split; [exact EH'|]. split; [apply destroy_linv; exact LH | exact GH']. }
+  destruct HP as [h [Eh [EH' [LH' GH']]]].
+  set (g := destroy (p_ser p) (st_led s)) in *.
+  assert (OWN_OLD : forall k t', nget (nset av i (Some None)) k = Some (Some t') -> k <> i /\ nget av k = Some (Some t')).
+  { intros k t' H. rewrite nget_nset in H by exact IR. destruct (Nat.eqb i k) eqn:E; [discriminate|].
+    apply Nat.eqb_neq in E. split; auto. }
+  assert (SIM : sim (mkSt (st_vars s) g h (st_ser s) (st_blk s)) (nset av i (Some None)) abl).
+  { constructor; cbn [st_vars st_led st_heap st_ser st_blk].
+    - etransitivity; [apply (sim_len _ _ _ S) | symmetry; apply nset_length].
+    - intros k. rewrite nget_nset by exact IR. destruct (Nat.eqb i k) eqn:E; [|apply (sim_scope _ _ _ S)].
+      apply Nat.eqb_eq in E. subst k. rewrite Hv. split; discriminate.
+    - intros k t' H. destruct (OWN_OLD k t' H) as [NE Hk].
+      destruct (sim_own _ _ _ S k t' Hk) as [p' [Hv' [Ht' [AL' [PO' SH']]]]].
+      destruct (sim_distinct _ _ _ S i k t t' p p' (not_eq_sym NE) (conj Ha Hv) (conj Hk Hv')) as [DS DB].
+      exists p'. split; [exact Hv'|]. split; [exact Ht'|]. split.
+      + rewrite GL'. destruct (p_ser p =? p_ser p') eqn:E; [apply Z.eqb_eq in E; contradiction | exact AL'].
+      + split; [exact PO'|]. intros SP'. rewrite GH'. destruct (is_spill p) eqn:SP; simpl; [|apply SH'; exact SP'].
+        destruct (p_blk p =? p_blk p') eqn:E; [apply Z.eqb_eq in E; exfalso; apply DB; auto | apply SH'; exact SP'].
+    - intros k l tk tl pk pl NE [Hak Hvk] [Hal Hvl].
+      destruct (OWN_OLD k tk Hak) as [_ Hk]. destruct (OWN_OLD l tl Hal) as [_ Hl].
+      apply (sim_distinct _ _ _ S k l tk tl pk pl NE); split; assumption.
+    - intros id Hid. rewrite GL'. pose proof (alive_below_led _ _ _ _ S AL) as B.
+      destruct (p_ser p =? id) eqn:E; [apply Z.eqb_eq in E; lia | apply (sim_fresh_led _ _ _ S); exact Hid].
+    - intros b Hb. rewrite GH'. destruct (is_spill p) eqn:SP; simpl; [|apply (sim_fresh_heap _ _ _ S); exact Hb].
+      pose proof (alive_below_heap _ _ _ _ S (SH eq_refl)) as B.
+      destruct (p_blk p =? b) eqn:E; [apply Z.eqb_eq in E; lia | apply (sim_fresh_heap _ _ _ S); exact Hb].
+    - intros b Hb. rewrite GH' in Hb.
+      assert (Hb0 : is_live (lget (st_heap s) b) = true /\ (is_spill p = true -> p_blk p <> b)).
+      { destruct (is_spill p); simpl in Hb; [|split; [exact Hb | discriminate]].
+        destruct (p_blk p =? b) eqn:E; [discriminate|]. apply Z.eqb_neq in E. split; [exact Hb | intros _; exact E]. }
+      destruct Hb0 as [Hb0 NB].
+      destruct (sim_live_heap _ _ _ S b Hb0) as [[k [tk [pk [[Hak Hvk] [SPk PBk]]]]] | I]; [|right; exact I].
+      left. exists k, tk, pk. split; [|split; assumption].
+      assert (NE : i <> k).
+      { intros ->. rewrite Hv in Hvk. inversion Hvk; subst pk. apply NB; assumption. }
+      split; [rewrite nget_nset_other by exact NE; exact Hak | exact Hvk].
+    - split; assumption.
+    - split; [apply destroy_linv; exact LL | exact LH']. }
+  assert (CNT : cnt (mkSt (st_vars s) g h (st_ser s) (st_blk s)) (nset av i (Some None)) = cnt s av).
+  { unfold cnt; simpl. unfold g. rewrite n_ctor_destroy, n_dtor_destroy, owned_length_nset by exact IR.
+    rewrite Ha. simpl. lia. }
+  assert (AB : abandoned ((if run then [AInvoke t] else []) ++ [ADestroy t]) = []) by (destruct run; reflexivity).
+  assert (FL : filter not_abandon ((if run then [AInvoke t] else []) ++ [ADestroy t]) =
+               (if run then [AInvoke t] else []) ++ [ADestroy t]) by (destruct run; reflexivity).
+  (* now the two storage kinds: the step equation and the events *)
+  unfold step_goal. rewrite AB, FL.
+  destruct (p_kind p) as [|K] eqn:EK.
+  - exists (mkSt (st_vars s) g h (st_ser s) (st_blk s)).
+    exists ((if run then [EInvoke (p_tag p) (LInline i) (alignedb (vaddr o i) (p_al p))] else []) ++
+            [EDestroy (p_tag p) (LInline i) (alignedb (vaddr o i) (p_al p))]), abl.
+    split.
+    { destruct run; unfold step; cbv zeta; rewrite Hv; unfold invoke; rewrite EK; rewrite ?U; fold g; rewrite <- Eh; reflexivity. }
+    split; [exact SIM|]. rewrite (pay_aligned_inline o i p OK PO EK), Ht.
+    split; [destruct run; reflexivity|]. split; [destruct run; reflexivity|]. split; [rewrite CNT; simpl; lia | reflexivity].
+  - exists (mkSt (st_vars s) g h (st_ser s) (st_blk s)).
+    exists ((if run then [EInvoke (p_tag p) LBlock (alignedb (p_addr p) (p_al p) && alignedb (p_addr p) K)] else []) ++
+            [EDestroy (p_tag p) LBlock (alignedb (p_addr p) (p_al p) && alignedb (p_addr p) K)] ++
+            [if from_pool K then EPoolFree K else EFree (am_request K K)]), abl.
+    split.
+    { destruct run; unfold step; cbv zeta; rewrite Hv; unfold invoke; rewrite EK; rewrite ?U; fold g; rewrite <- Eh; reflexivity. }
+    split; [exact SIM|]. rewrite (pay_aligned_spill p K PO EK), Ht.
+    split; [destruct run, (from_pool K); reflexivity|]. split; [destruct run, (from_pool K); reflexivity|].
+    split; [rewrite CNT; simpl; lia | reflexivity].
+Qed.
+
+Lemma step_call o s av abl i av' aevs : oracle_ok o -> sim s av abl -> astep av (OCall i) = Some (av', aevs) ->
+  step_goal o s av abl (OCall i) av' aevs.
+Proof.
+  intros OK S H. unfold astep in H. destruct (nget av i) as [[t|]|] eqn:Ea; try discriminate.
+  inversion H; subst. apply (step_invoke o s av abl i t true OK S Ea).
+Qed.
+
+Lemma step_cleanup o s av abl i av' aevs : oracle_ok o -> sim s av abl -> astep av (OCleanup i) = Some (av', aevs) ->
+  step_goal o s av abl (OCleanup i) av' aevs.
+Proof.
+  intros OK S H. unfold astep in H. destruct (nget av i) as [[t|]|] eqn:Ea; try discriminate.
+  inversion H; subst. apply (step_invoke o s av abl i t false OK S Ea).
+Qed.
+
+(* OnceFunction(F&&): both storage kinds.  [h], [p], [alloc_ev] describe the storage-specific part. *)
+Lemma step_make o s av abl i sz al t byCopy av' aevs : oracle_ok o -> sim s av abl -> type_ok sz al = true ->
+  astep av (OMake i sz al t byCopy) = Some (av', aevs) ->
+  step_goal o s av abl (OMake i sz al t byCopy) av' aevs.
+Proof.
+  intros OK S TY H. unfold astep in H. destruct (in_range av i) eqn:IR; simpl in H; [|discriminate].
+  destruct (nget av i) eqn:Ea; [discriminate|]. inversion H; subst; clear H. apply in_range_true in IR.
+  pose proof (proj1 (sim_scope _ _ _ S i) Ea) as Ev.
+  pose proof (sim_len _ _ _ S) as L. assert (LV : (i < length (st_vars s))%nat) by (rewrite L; exact IR).
+  destruct (sim_errs _ _ _ S) as [EL EH]. destruct (sim_linv _ _ _ S) as [LL LH].
+  destruct (type_ok_facts _ _ TY) as [ALP _].
+  destruct (make_chain byCopy (st_led s) (st_ser s) EL LL (sim_fresh_led _ _ _ S)) as [EL' [LL' [GL' [NC ND]]]].
+  cbv zeta in EL', LL', GL', NC, ND.
+  set (g := destroy (st_ser s) (construct (if byCopy then KCopy else KMove) (st_ser s + 1)
+             (if byCopy then use (st_ser s) (construct KValue (st_ser s) (st_led s))
+              else move_from (st_ser s) (construct KValue (st_ser s) (st_led s))))) in *.
+  (* storage-specific part *)
+  set (K := alloc_size sz al).
+  set (b := st_blk s).
+  set (a := if from_pool K then pool_addr o K b else am_base (malloc_ret o b) K).
+  set (inl := fits_inline sz al).
+  set (p := if inl then mkPay SInline t (st_ser s + 1) 0 0 al else mkPay (SSpill K) t (st_ser s + 1) b a al).
+  set (h := if inl then st_heap s else construct KValue b (st_heap s)).
+  set (blk' := if inl then st_blk s else b + 1).
+  assert (PT : p_tag p = t /\ p_ser p = st_ser s + 1 /\ p_al p = al) by (unfold p; destruct inl; auto).
+  destruct PT as [PT [PS PA]].
+  assert (PO : pay_ok p).
+  { unfold p, pay_ok. destruct inl eqn:EI; simpl.
+    - split; [exact ALP | apply (inline_align_divides sz al TY EI)].
+    - split; [exact ALP | apply (spill_block_aligned o sz al b OK TY)]. }
+  assert (HF : l_errs h = [] /\ linv h /\
+          (forall b', lget h b' = if negb inl && (b =? b') then Alive else lget (st_heap s) b')).
+  { unfold h. destruct inl; simpl.
+    - split; [exact EH|]. split; [exact LH | reflexivity].
+    - destruct (construct_fact KValue b (st_heap s) EH) as [E1 G1].
+      { rewrite (sim_fresh_heap _ _ _ S b); [reflexivity | unfold b; lia]. }
+      split; [exact E1|]. split; [apply construct_linv; exact LH | exact G1]. }
+  destruct HF as [EH' [LH' GH']].
+  assert (SPB : is_spill p = negb inl /\ (is_spill p = true -> p_blk p = b)) by (unfold p, is_spill; destruct inl; simpl; (split; [reflexivity | intros X; try discriminate; reflexivity])).
+  destruct SPB as [SP PB].
+  set (vs' := nset (st_vars s) i (Some (Some p))).
+  set (s' := mkSt vs' g h (st_ser s + 2) blk').
+  (* old owners keep their ledger entries *)
+  assert (OLD : forall k t', k <> i -> nget av k = Some (Some t') ->
+            exists p', nget (st_vars s) k = Some (Some p') /\ good g h p' t' /\ p_ser p' < st_ser s /\
+                       (is_spill p' = true -> p_blk p' < b)).
+  { intros k t' NE Hk. destruct (sim_own _ _ _ S k t' Hk) as [p' [Hv' [Ht' [AL' [PO' SH']]]]].
+    pose proof (alive_below_led _ _ _ _ S AL') as B1.
+    exists p'. split; [exact Hv'|]. split; [|split; [exact B1|]].
+    - split; [exact Ht'|]. split.
+      + rewrite GL'. destruct (st_ser s =? p_ser p') eqn:E1; [apply Z.eqb_eq in E1; lia|].
+        destruct (st_ser s + 1 =? p_ser p') eqn:E2; [apply Z.eqb_eq in E2; lia | exact AL'].
+      + split; [exact PO'|]. intros SP'. pose proof (alive_below_heap _ _ _ _ S (SH' SP')) as B2.
+        rewrite GH'. destruct (b =? p_blk p') eqn:E; [apply Z.eqb_eq in E; unfold b in E; lia|].
+        rewrite andb_false_r. apply SH'. exact SP'.
+    - intros SP'. apply (alive_below_heap _ _ _ _ S (SH' SP')). }
+  assert (NEWOWN : forall k t', nget (nset av i (Some (Some t))) k = Some (Some t') ->
+            (k = i /\ t' = t) \/ (k <> i /\ nget av k = Some (Some t'))).
+  { intros k t' Hk. rewrite nget_nset in Hk by exact IR. destruct (Nat.eqb i k) eqn:E.
+    - apply Nat.eqb_eq in E. left. split; [auto | congruence].
+    - apply Nat.eqb_neq in E. right. split; auto. }
+  assert (VI : nget vs' i = Some (Some p)) by (unfold vs'; apply nget_nset_same; exact LV).
+  assert (VK : forall k, k <> i -> nget vs' k = nget (st_vars s) k) by (intros k NE; unfold vs'; apply nget_nset_other; auto).
+  assert (SIM : sim s' (nset av i (Some (Some t))) abl).
+  { constructor; cbn [st_vars st_led st_heap st_ser st_blk s'].
+    - unfold vs'. rewrite nset_length. etransitivity; [exact L | symmetry; apply nset_length].
+    - intros k. unfold vs'. rewrite !nget_nset by assumption. destruct (Nat.eqb i k); [split; discriminate | apply (sim_scope _ _ _ S)].
+    - intros k t' Hk. destruct (NEWOWN k t' Hk) as [[-> ->] | [NE Hk']].
+      + exists p. split; [exact VI|]. split; [exact PT|]. split.
+        * rewrite GL', PS. assert ((st_ser s =? st_ser s + 1) = false) as -> by (apply Z.eqb_neq; lia).
+          rewrite Z.eqb_refl. reflexivity.
+        * split; [exact PO|]. intros SPt. rewrite GH', (PB SPt), Z.eqb_refl. rewrite <- SP, SPt. reflexivity.
+      + destruct (OLD k t' NE Hk') as [p' [Hv' [G' _]]]. exists p'. rewrite VK by exact NE. auto.
+    - intros k l tk tl pk pl NE [Hak Hvk] [Hal Hvl].
+      destruct (NEWOWN k tk Hak) as [[-> ->] | [NEk Hk']]; destruct (NEWOWN l tl Hal) as [[-> ->] | [NEl Hl']].
+      + contradiction.
+      + rewrite VI in Hvk. inversion Hvk; subst pk. rewrite VK in Hvl by exact NEl.
+        destruct (OLD l tl NEl Hl') as [p' [Hv' [_ [B1 B2]]]]. rewrite Hv' in Hvl. inversion Hvl; subst pl.
+        split; [lia|]. intros S1 S2. rewrite (PB S1). specialize (B2 S2). lia.
+      + rewrite VI in Hvl. inversion Hvl; subst pl. rewrite VK in Hvk by exact NEk.
+        destruct (OLD k tk NEk Hk') as [p' [Hv' [_ [B1 B2]]]]. rewrite Hv' in Hvk. inversion Hvk; subst pk.
+        split; [lia|]. intros S1 S2. rewrite (PB S2). specialize (B2 S1). lia.
+      + rewrite VK in Hvk by exact NEk. rewrite VK in Hvl by exact NEl.
+        apply (sim_distinct _ _ _ S k l tk tl pk pl NE); split; assumption.
+    - intros id Hid. rewrite GL'.
+      destruct (st_ser s =? id) eqn:E1; [apply Z.eqb_eq in E1; lia|].
+      destruct (st_ser s + 1 =? id) eqn:E2; [apply Z.eqb_eq in E2; lia|]. apply (sim_fresh_led _ _ _ S). lia.
+    - intros b' Hb. rewrite GH'. unfold blk' in Hb. destruct inl; simpl.
+      + apply (sim_fresh_heap _ _ _ S). exact Hb.
+      + destruct (b =? b') eqn:E; [apply Z.eqb_eq in E; lia|]. apply (sim_fresh_heap _ _ _ S). unfold b in *. lia.
+    - intros b' Hb. rewrite GH' in Hb.
+      destruct (negb inl && (b =? b')) eqn:E.
+      + apply andb_true_iff in E. destruct E as [E1 E2]. apply Z.eqb_eq in E2. subst b'.
+        left. exists i, t, p. split; [split; [apply nget_nset_same; exact IR | exact VI]|].
+        assert (SPt : is_spill p = true) by (rewrite SP; exact E1). split; [exact SPt | apply PB; exact SPt].
+      + destruct (sim_live_heap _ _ _ S b' Hb) as [[k [tk [pk [[Hak Hvk] [SPk PBk]]]]] | I]; [|right; exact I].
+        left. exists k, tk, pk. assert (NE : k <> i) by (intros ->; congruence).
+        split; [|split; assumption]. split; [rewrite nget_nset_other by auto; exact Hak | rewrite VK by exact NE; exact Hvk].
+    - split; assumption.
+    - split; assumption. }
+  assert (CNT : cnt s' (nset av i (Some (Some t))) = cnt s av).
+  { unfold cnt; cbn [st_led s']. rewrite NC, ND, owned_length_nset by exact IR. rewrite Ea. simpl. lia. }
+  unfold step_goal.
+  exists s'.
+  exists (if inl then [EConstruct KValue t LTemp true;
+                       EConstruct (if byCopy then KCopy else KMove) t (LInline i) (alignedb (vaddr o i) al);
+                       EDestroy (if byCopy then t else moved_tag) LTemp true]
+          else [EConstruct KValue t LTemp true; (if from_pool K then EPoolAlloc K else EMalloc (am_request K K));
+                EConstruct (if byCopy then KCopy else KMove) t LBlock (alignedb a al && alignedb a K);
+                EDestroy (if byCopy then t else moved_tag) LTemp true]), abl.
+  split.
+  { unfold step; cbv zeta. rewrite (in_range_lt (st_vars s) i LV); simpl negb; cbv iota. rewrite Ev.
+    unfold s', vs', p, h, blk', inl, g. fold K. fold b. destruct (fits_inline sz al); reflexivity. }
+  split; [exact SIM|].
+  split; [destruct inl, (from_pool K); reflexivity|].
+  split.
+  { destruct inl eqn:EI.
+    - assert (A1 : alignedb (vaddr o i) al = true).
+      { pose proof (pay_aligned_inline o i p OK PO) as X. rewrite PA in X. apply X. unfold p. reflexivity. }
+      rewrite A1. reflexivity.
+    - assert (A2 : alignedb a al && alignedb a K = true).
+      { pose proof (pay_aligned_spill p K PO) as X. rewrite PA in X. unfold p in X at 1 2. simpl in X. apply X. unfold p. reflexivity. }
+      rewrite A2. destruct (from_pool K); reflexivity. }
+  split; [rewrite CNT; simpl; lia | reflexivity].
 Qed.
